@@ -29,7 +29,7 @@ BIG == 1000000
 
 (***************************************************************************)
 (* Initial monitor.  cfg: [len, base, fam, hint, consuming, nthreads,       *)
-(* refs (delivers references into the source), clones (cloned adaptor)]     *)
+(* clones (cloned adaptor), extra (late elements of a non-fused source)]    *)
 (* Source element at position p has value base + p.                         *)
 (***************************************************************************)
 MonInit(cfg) ==
@@ -71,7 +71,9 @@ MonInit(cfg) ==
 AddFlags(m, S) == [m EXCEPT !.flags = @ \cup S]
 Known(m) == m.cfg.fam = "counter" \/ m.cfg.hint = "exact"
 
-PosOf(m, v) == IF IsInt(v) /\ v >= m.cfg.base /\ v < m.cfg.base + m.cfg.len
+\* cfg.extra > 0: a non-fused wrapped iterator that yields `extra` further elements after its first None;
+\* they get the positions len, len+1, ... (never legitimately delivered once the end has been reported)
+PosOf(m, v) == IF IsInt(v) /\ v >= m.cfg.base /\ v < m.cfg.base + m.cfg.len + m.cfg.extra
                THEN v - m.cfg.base ELSE -1
 
 Delivered(m) == {p \in DOMAIN m.deliv : m.deliv[p] >= 1}
@@ -229,7 +231,9 @@ MRet(m, t, res) ==
       m0 == [m EXCEPT !.op[t] = "", !.inflightQ = @ - 1,
                       !.inflight = IF pull THEN @ - 1 ELSE @]
   IN
-  CASE res.k = "none" ->
+  CASE res.k = "none" /\ op \in {"chunk", "fetchn"} /\ m.n[t] = 0 ->
+         Quiesce(m0)       \* a one-shot pull of size zero delivers nothing and says nothing about the end
+    [] res.k = "none" ->
          Quiesce([m0 EXCEPT !.endRet = TRUE,
                             !.endSingle = @ \/ op \in {"next", "nextid", "chunk", "fetchn"},
                             !.sawEnd[t] = TRUE,
@@ -246,8 +250,9 @@ MRet(m, t, res) ==
     [] res.k = "chunk" ->
          LET fl == ChunkFlags(m, t, res)
              ok == IsInt(res.b) /\ IsInt(res.alen) /\ res.b >= 0 /\ res.alen >= 0 /\ res.alen < BIG
-             ps == IF ok THEN {res.b + j : j \in 0..(res.alen - 1)} ELSE {}
              mv == {PosOf(m, res.vals[j]) : j \in 1..Len(res.vals)} \ {-1}
+             \* delivered: the announced positions and whatever the chunk actually yielded
+             ps == (IF ok THEN {res.b + j : j \in 0..(res.alen - 1)} ELSE {}) \cup mv
              m1 == AddFlags(m0, fl)
              m2 == Deliver(m1, t, ps, "ret")
              m3 == Move(m2, mv)
@@ -274,7 +279,7 @@ MRet(m, t, res) ==
          LET f == IF res.vals # m.cur[t] THEN {"FoldResult"} ELSE {} IN
          Quiesce(AddFlags([m0 EXCEPT !.endRet = TRUE, !.sawEnd[t] = TRUE], f))
     [] res.k = "seq" ->
-         LET mv == {PosOf(m, res.vals[j]) : j \in 1..Len(res.vals)} \ {-1}
+         LET mv == {PosOf(m, res.vals[j]) : j \in 1..Len(res.vals)} \cap DOMAIN m.deliv
              m1 == AddFlags(m0, SeqFlags(m, res))
              m2 == [m1 EXCEPT !.deliv = [p \in DOMAIN @ |-> IF p \in mv THEN Min2(2, @[p] + 1) ELSE @[p]]]
              m3 == AddFlags(m2, IF \E p \in mv : m.deliv[p] >= 1 THEN {"NoDup"} ELSE {})
@@ -295,6 +300,7 @@ MDropElem(m, id, ok) ==
   LET p == PosOf(m, id)
       f0 == IF ~ok THEN {"OwnGarbage"} ELSE {}
   IN IF p < 0 THEN AddFlags(m, f0 \cup {"OwnGarbage"})
+     ELSE IF p >= m.cfg.len THEN AddFlags(m, f0)        \* a late element of a non-fused source
      ELSE IF ~m.cfg.consuming
        THEN AddFlags(m, f0 \cup (IF m.cfg.clones THEN {} ELSE {"SrcDropped"}))
      ELSE [ AddFlags(m, f0 \cup IF m.moves[p] + m.drops[p] >= 1 THEN {"OwnTwice"} ELSE {}) EXCEPT
@@ -302,7 +308,12 @@ MDropElem(m, id, ok) ==
 
 MCloneElem(m, id) ==
   LET p == PosOf(m, id) IN
-  IF p < 0 THEN AddFlags(m, {"Value"}) ELSE [m EXCEPT !.clones[p] = Min2(3, @ + 1)]
+  IF p < 0 THEN AddFlags(m, {"Value"})
+  ELSE IF p >= m.cfg.len THEN m
+  ELSE [m EXCEPT !.clones[p] = Min2(3, @ + 1)]
+
+\* a call that ended in a panic had already handed these values to its caller
+MPartial(m, vals) == Move(m, {PosOf(m, vals[j]) : j \in 1..Len(vals)} \ {-1})
 
 MSrcCheck(m, ok) == AddFlags(m, IF ok THEN {} ELSE {"SrcModified"})
 MMem(m, at, live) == IF at = "end" THEN AddFlags([m EXCEPT !.memEnd = live],
